@@ -1,6 +1,7 @@
 CONSTANTS
   IDs = {"Chrome-120", "Firefox-120", "Randomized"}
   RandIDs = {"Randomized"}
+  Stalls = {{}, {"Chrome-120"}, {"Firefox-120"}, {"Chrome-120", "Firefox-120"}}
   Seeds = {1, 2, 3, 4, 5, 6, 7, 8, 9, 10, 11, 12, 13, 14, 15, 16, 17, 18, 19, 20, 21, 22, 23, 24}
   Canon = FALSE
   MaxSteps = 99
